@@ -100,13 +100,21 @@ IsMergeDrop(s, t) ==
 ShapeOf(x) == [i \in 1..Rank(x) |-> SizeTotal(x.ix[i])]
 \* bag of stored magnitudes as a set of <<|v|^2, multiplicity>>
 MagBag(E) == {<<m, Cardinality({e \in E : VAbs2(e.v) = m})>> : m \in {VAbs2(e.v) : e \in E}}
-ReshapeFails(x, newshape, r, p) ==
+ReshapeFails0(x, newshape, r, p) ==
   F(Rank(r) = Len(newshape), p \o ".rank")
   \cup (IF Rank(r) # Len(newshape) THEN {}
         ELSE F(\A i \in 1..Rank(r) : SizeTotal(r.ix[i]) <= newshape[i], p \o ".axis_size"))
   \cup F(Norm2(Elem(r)) = Norm2(Elem(x)), p \o ".norm")
   \cup F(MagBag(Elem(r)) = MagBag(Elem(x)), p \o ".magnitudes")
   \cup F(r.charge = x.charge, p \o ".charge")
+\* when the target only inserts unit axes into a shape without unit axes, the content is literally unchanged
+NoOnes(seq) == SelectSeq(seq, LAMBDA d : d # 1)
+ExpandOnly(x, newshape) == NoOnes(newshape) = ShapeOf(x) /\ \A i \in 1..Rank(x) : SizeTotal(x.ix[i]) # 1 /\ ~IsFused(x.ix[i])
+DropUnitCoords(r, k) == LET keep == SelectSeq([i \in 1..Len(k) |-> i], LAMBDA i : SizeTotal(r.ix[i]) # 1) IN [j \in 1..Len(keep) |-> k[keep[j]]]
+ReshapeFails(x, newshape, r, p) ==
+  (IF ExpandOnly(x, newshape) /\ Rank(r) = Len(newshape)
+   THEN F({[k |-> DropUnitCoords(r, e.k), v |-> e.v] : e \in Elem(r)} = Elem(x), p \o ".content")
+   ELSE {}) \cup ReshapeFails0(x, newshape, r, p)
 
 ---------------------------------------------------------------------------
 \* C07, routine level: what executing the plan returned by the axis-matching routine does to a SHAPE.
